@@ -2,5 +2,5 @@ CONSTANTS Alphabet = {0, 127, 128, 251, 255}
           MaxLen = 5
           AllShort = TRUE
 SPECIFICATION Spec
-INVARIANTS RoundTrip Lengths Alphabets Rfc
+INVARIANTS IdxForms RoundTrip Lengths Alphabets Rfc
 CHECK_DEADLOCK FALSE
